@@ -259,6 +259,56 @@ fn main() {
         }
         t
     });
+    // E13: long zero runs in the digit fields x exponents that put the resulting SCALE at the ends of the i64 range.
+    // For a mantissa with f fraction digits the exponent is chosen as f - S for every target scale S within
+    // {0, 1, 2, z-1, z, z+1, 1000, 2000, 5000} of i64::MIN and i64::MAX and up to z+1 beyond them: a numeral is valid
+    // exactly when its own scale fits, whatever intermediate scale an implementation passes through.
+    let zl: Vec<usize> = vec![0, 1, 18, 19, 20, 63, 64, 65, 255, 256, 257, 1023, 1024, 1025, 2047, 2048, 2049, 3000, 4095, 4096, 4097, tier.pick(5000, 70_000)];
+    run.bound("E13_zero_runs", json!(zl));
+    run.par("E13 zero runs x scales at the i64 limits", zl.len(), |zi| {
+        let mut t = Tally::default();
+        let z = zl[zi];
+        let zeros = "0".repeat(z);
+        let mants: Vec<(String, i128)> = vec![
+            (format!("7{}", zeros), 0),
+            (format!("-1.23{}", zeros), 2 + z as i128),
+            (format!("7{}.5", zeros), 1),
+            (format!("{}7", zeros), 0),
+            (format!("0.{}7", zeros), 1 + z as i128),
+            (format!("+9{}.{}", zeros, zeros), z as i128),
+            (format!("1_{}", "0_".repeat(z)), 0),
+        ];
+        let ds: Vec<i128> = vec![0, 1, 2, z as i128 - 1, z as i128, z as i128 + 1, 1000, 2000, 5000];
+        for (m, f) in mants.iter() {
+            let mut exps: Vec<i128> = vec![];
+            for &d in ds.iter() {
+                for lim in [i64::MIN as i128, i64::MAX as i128] {
+                    for sc in [lim + d, lim - d] {
+                        exps.push(f - sc);
+                    }
+                }
+            }
+            exps.sort();
+            exps.dedup();
+            for e in exps {
+                for es in [format!("e{}", e), format!("E{:+}", e)] {
+                    let txt = format!("{}{}", m, es);
+                    let b = txt.as_bytes();
+                    t.states += 1;
+                    if expected(b, 10).is_some() {
+                        t.nontrivial += 1;
+                    }
+                    for en in ENTRIES {
+                        t.transitions += 1;
+                        if let Some(v) = check(en, b, 10) {
+                            run.report(v);
+                        }
+                    }
+                }
+            }
+        }
+        t
+    });
     // E6: exhaustive mutation neighbourhoods of valid numerals: every single and every double insertion, and
     // every single substitution, of a symbol from {+ - . _ e E é ٣ NUL space x 1} at every position
     let bases: Vec<&str> = vec!["0", "7", "-1", "+12", "1.5", "-0.25", "1e5", "1.5e-3", "12_345.678_9", ".5", "5.", "1E+10", "123456789012345678901234567890", "0.000", "1e9223372036854775807", "-1.0e-9223372036854775807"];
